@@ -81,6 +81,9 @@ func majEnumerate(s *Shard, prop string, fn func(c *Case)) {
 			dims[i] = len(g.levels)
 		}
 		ws := weights2
+		if g.n <= 3 && len(g.levels) == 3 && g.levels[2] == 2 {
+			ws = append(append([][]float64{}, weights2...), []float64{-1, 2}, []float64{-2, -1}) // any weights: negative ones too
+		}
 		typeSets := [][]string{{"", "gain"}, {"gain", "cost"}} // "" = type left out (documented default: gain)
 		if g.m == 3 {
 			ws = weights3
